@@ -111,7 +111,11 @@ def gate(chk, cover, only_functions=None):
                                   "uncovered_in_baseline": len(miss) - len(new), "uncovered_new": [list(m) for m in new[:10]]}
     if os.environ.get("VERIF_WRITE_COVERAGE_BASELINE"):
         allb = load_baseline()
-        allb[chk.pid] = [{"file": m[0], "function": m[1], "text": m[3]} for m in miss]
+        entries = [{"file": m[0], "function": m[1], "text": m[3]} for m in miss]
+        if os.environ.get("VERIF_COVERAGE_MERGE"):
+            have = {(e["file"], e["function"], e["text"]) for e in entries}
+            entries += [e for e in allb.get(chk.pid, []) if (e["file"], e["function"], e["text"]) not in have]
+        allb[chk.pid] = sorted(entries, key=lambda e: (e["file"], e["function"], e["text"]))
         with open(BASELINE, "w") as fh:
             json.dump(allb, fh, indent=1, sort_keys=True)
         return []
